@@ -518,6 +518,14 @@ impl Ctx {
   {
     self.any_sub = true;
     self.all_exhaustive = false;
+    // The quick tier multiplies every random budget by a fixed factor (default 5; VERIF_QUICK_SCALE overrides):
+    // the per-property case counts were chosen for a 6-thread development box, the checks run on 16 threads.
+    let cases = if self.tier == Tier::Quick {
+      let scale: u32 = std::env::var("VERIF_QUICK_SCALE").ok().and_then(|s| s.parse().ok()).unwrap_or(5);
+      cases.saturating_mul(scale.max(1))
+    } else {
+      cases
+    };
     let shards = self.threads.max(1).min(cases.max(1) as usize);
     let per = cases / shards as u32;
     let extra = cases % shards as u32;
